@@ -129,9 +129,15 @@ def run(ctx):
     for name, menu, depth in UNITS_MENUS[ctx.tier]:
         unitscheck.run_menu(ctx, name, menu, depth)
     calccheck.run_programs(ctx, programs(ctx), 'mul/div/pow', sigfn=sig)
+    # the repository's own test suite under the tracer: every * / ** it performs, judged by BCalc.tla
+    from checks import bcalccheck
+    bcalccheck.repo_suite(ctx, {'Mul', 'Div', 'Pow'})
 
 
 def replay(ctx, rp):
+    if str(rp['replay'].get('kind')).startswith('bcalc'):
+        from checks import bcalccheck
+        return bcalccheck.replay(ctx, rp)
     if rp['replay'].get('kind') == 'units':
         unitscheck.replay_path(ctx, rp)
     else:
